@@ -515,6 +515,9 @@ def run(model, rep, tier):
     from rules.c17 import check_state_coverage
     from rules.c03 import _Rename
     check_state_coverage(model, _Rename(rep, {'R17.3': 'R18.4'}))   # the key of a memoised solve includes the hash of its method object
+    rep.rule('R18.11', 'every name loaded in cache.py resolves (symtable)')
+    from rules import names as _names
+    _names.check(model, rep, 'R18.11', ('cache',), 15)
     rep.require('R18.1', 14)
     rep.require('R18.4', 9)
     rep.require('R18.6', 9)
